@@ -18,6 +18,7 @@ func init() {
 }
 
 func runC48(c *Ctx) {
+	sweepC48(c)
 	f := c.fn("ocsp", "ParseResponseForCert")
 	if f == nil {
 		return
